@@ -2,7 +2,7 @@
    body (Model/LowerProg.v): same memory, script time, real time and instruction log, through jumps in both
    directions.  Composition of the per-statement theorems (LowerSound, LowerJumps) over [lower_body]. *)
 From TV Require Import Base.I32 Base.F32 Model.Ops Model.Expr Model.Lower Model.LowerSem Model.LowerProg
-  Proofs.LowerSound Proofs.LowerShape Proofs.LowerJumps Proofs.LowerStatic.
+  Proofs.LowerSound Proofs.LowerShape Proofs.LowerJumps Proofs.LowerStatic Proofs.LowerArgs.
 Open Scope Z_scope.
 
 (* ---------------- pst bookkeeping ---------------- *)
@@ -219,6 +219,14 @@ Section WBlk.
       + rewrite IH; [reflexivity | exact Hr | exact Hir | exact Hd' | exact Hst | exact Hmd].
       + rewrite IH; [reflexivity | exact Hr | exact Hir | exact Hd' | exact Hst | exact Hmd].
   Qed.
+  Lemma wblk_frees ds : forall md st cmp,
+    wblk (map LFree ds) md st cmp = Ok (md, set_mem st (free_all lty ds (p_mem st)), cmp).
+  Proof.
+    induction ds as [|d ds IH]; intros md st cmp; cbn [map LowerProg.wblk free_all fold_left].
+    - rewrite set_mem_id. reflexivity.
+    - rewrite IH. reflexivity.
+  Qed.
+
   (* a block whose statement is disabled on this difficulty: only the markers act *)
   Lemma wblk_off t mask : runs dsel mask = false ->
     forall code st cmp, Forall (at_time t mask) code -> p_time st = t ->
@@ -475,7 +483,7 @@ Section Sim.
   (* the statements covered by the whole-body theorem: assignments (any compound operator over jump-free
      right-hand sides; ternaries with plain `=`), single-variable declarations with initialiser, scope ends, empty
      statements, conditional, counting and unconditional jumps to user labels, labels, interrupts, instruction calls
-     whose arguments need no temporaries *)
+     with jump-free arguments (complex ones go through temporaries) *)
   Definition wf_stmt (n0 : nat) (st : sstmt) : Prop :=
     match st with
     | SAssign v aop e =>
@@ -485,8 +493,7 @@ Section Sim.
     | SCondJmp k (CPredecCmp v op) l jt => var_below n0 v /\ user l
     | SJmp l jt => user l
     | SLabel l => user l
-    | SCall opc args =>
-        Forall (fun e => wt_pure [] e = true /\ locals_below n0 e = true /\ exists a ta, classify [] e = Simple a ta) args
+    | SCall opc args => Forall (fun e => wt_pure [] e = true /\ locals_below n0 e = true) args
     | SInterrupt _ => True
     | SNop => True
     | SScopeEnd d => (d < n0)%nat
@@ -501,23 +508,24 @@ Section Sim.
     rewrite (H x (or_introl eq_refl)). rewrite IH; [reflexivity|]. intros y Hy. apply H. right. exact Hy.
   Qed.
 
-  Lemma lower_args_simple n0 t mask fuel s : te_agree n0 [] (te s) -> forall args,
-    Forall (fun e => wt_pure [] e = true /\ locals_below n0 e = true /\ exists a ta, classify [] e = Simple a ta) args ->
-    exists la, lower_args t mask fuel args s = Ok ([], la, [], s) /\
-               forall m, mapM (read_arg m) la = mapM (eval_e m) args.
+  Lemma args_wf_te n0 te args : te_agree n0 [] te ->
+    Forall (fun e => wt_pure [] e = true /\ locals_below n0 e = true) args ->
+    Forall (fun e => wt_pure te e = true /\ locals_below n0 e = true) args.
   Proof.
-    intros Ha. induction args as [|e args IH]; intros H.
-    - exists []. split; reflexivity.
-    - pose proof (Forall_inv H) as [Hw [Hb [a [ta Hc]]]]. destruct (IH (Forall_inv_tail H)) as [la [El Em]].
-      assert (Hc' : classify (te s) e = Simple a ta).
-      { rewrite (agree_classify auto_casts rty lty n0 [] (te s) Ha e Hb Hw). exact Hc. }
-      exists (a :: la). split.
-      + cbn [Lower.lower_args]. rewrite Hc', El. reflexivity.
-      + intros m. cbn [mapM]. rewrite Em.
-        assert (Hw' : wt_pure (te s) e = true) by (rewrite (agree_wt rty lty n0 [] (te s) Ha e Hb); exact Hw).
-        destruct (classify_simple T libm auto_casts rty lty diff (te s) m e a ta Hw' Hc') as [Hr _].
-        rewrite Hr, <- (eval_e_agree n0 (te s) m e Ha Hb). reflexivity.
+    intros Ha H. eapply Forall_impl; [|exact H]. intros e [Hw Hb]. split; [|exact Hb].
+    rewrite (agree_wt rty lty n0 [] te Ha e Hb). exact Hw.
   Qed.
+
+  Lemma args_eval_te n0 te m args : te_agree n0 [] te ->
+    Forall (fun e => wt_pure [] e = true /\ locals_below n0 e = true) args ->
+    mapM (eval_e m) args = mapM (eval_s te m) args.
+  Proof.
+    intros Ha H. apply mapM_ext. intros e Hin. rewrite Forall_forall in H. destruct (H e Hin) as [_ Hb].
+    apply (eval_e_agree n0 te m e Ha Hb).
+  Qed.
+
+  Lemma frees_shape ds lo hi t mask : Forall (at_time t mask) (map LFree ds) /\ labels_in lo hi (map LFree ds).
+  Proof. induction ds as [|d ds [IH1 IH2]]; split; cbn [map]; constructor; try exact I; assumption. Qed.
 
   Lemma te_agree_refl_ n te : te_agree n te te.
   Proof. intros d _. reflexivity. Qed.
@@ -590,12 +598,27 @@ Section Sim.
       intros cmp. exists cmp. cbn [LowerProg.wblk]. rewrite set_mem_id. reflexivity.
     - (* SCall *)
       cbn [LowerProg.sstep] in Hs.
-      destruct (lower_args_simple n0 t mask fuel s Ha args Hwf) as [la [El Em]]. rewrite El in Hl.
-      inversion Hl; subst c1 s1. cbn [app map rev].
+      destruct (lower_args t mask fuel args s) as [[[[c la] ds] sa]| | |] eqn:El; try discriminate.
+      inversion Hl; subst c1 s1. clear Hl.
       destruct (mapM (eval_e (p_mem (wait t st))) args) as [vs| | |] eqn:Ev; cbn [obind] in Hs; try discriminate.
-      inversion Hs; subst m' j lg. cbn [mode_of logged].
-      split; [|split; [lia|split; [apply te_agree_refl_|rewrite wait_mem; exact Hfr]]].
-      intros cmp. exists cmp. cbn [LowerProg.wblk]. rewrite Hr. cbn [negb]. rewrite Em, Ev. rewrite set_mem_id. reflexivity.
+      inversion Hs; subst m' j lg. cbn [mode_of logged]. rewrite wait_mem in Ev |- *.
+      rewrite (args_eval_te n0 (te s) (p_mem st) args Ha Hwf) in Ev.
+      destruct (args_sound T libm avail auto_casts rty lty diff t mask no_sigil_intrinsics HT n0 fuel args s c la ds sa El
+                  (args_wf_te n0 (te s) args Ha Hwf) Hn (p_mem st) vs Hfr Ev) as [m1 [Hrp [Hread [_ [Hfree [Hg Ht]]]]]].
+      destruct (args_static avail auto_casts rty lty t mask no_sigil_intrinsics fuel args s c la ds sa El) as [Hat [Hio [_ [_ [_ _]]]]].
+      split; [|split; [exact Hg|split; [exact Ht|eapply fresh_mono; eassumption]]].
+      intros cmp.
+      assert (Hatw : Forall (at_time t mask) (c ++ LInstr t mask (ICall opc la) :: map LFree (rev ds))).
+      { apply Forall_app. split; [exact Hat|]. constructor; [split; reflexivity|]. apply (frees_shape (rev ds) 0 0 t mask). }
+      assert (Hx : touches (c ++ LInstr t mask (ICall opc la) :: map LFree (rev ds))).
+      { apply touches_app_r. reflexivity. }
+      rewrite (wblk_entry T libm lty dsel t mask _ st cmp Hatw Hx). rewrite wblk_app.
+      rewrite (wblk_steady T libm lty dsel t mask None Hr c Exec (wait t st) cmp Hat Hio I (wait_time t st Hle) I).
+      rewrite wait_mem.
+      destruct (cps_blk T libm lty c (p_mem st) Exec m1 (fun rest cmp0 => ex_intro _ cmp0 (run_fwd_pure T libm lty c (p_mem st) m1 rest cmp0 Hrp)) cmp) as [c' Eb].
+      rewrite Eb. exists c'. cbn [app LowerProg.wblk].
+      rewrite (wait_at t (set_mem (wait t st) m1) (wait_time t st Hle)). rewrite Hr. cbn [negb p_mem set_mem].
+      rewrite Hread. rewrite wblk_frees. cbn [p_mem add_log set_mem]. rewrite Hfree. reflexivity.
     - (* SScopeEnd *)
       cbn [LowerProg.sstep] in Hs. unfold ret in Hl. inversion Hl; subst c1 s1.
       assert (Em : m' = update (p_mem st) (VLoc d) (default_of (lty d)) /\ j = None /\ lg = None).
@@ -724,8 +747,15 @@ Section Sim.
     - unfold need, instr, ret in Hl. destruct (avail KJmp); [|discriminate]. destruct (Hone _ Hl) as [G [A [N [Ht [Hx L]]]]]. auto 8.
     - unfold ret in Hl. inversion Hl; subst. split; [lia|]. split; [apply te_agree_refl_|]. split; [intros; reflexivity|].
       split; [repeat constructor|]. split; [intros _; reflexivity | reflexivity].
-    - destruct (lower_args_simple n0 t mask fuel s Ha args Hwf) as [la [El _]]. rewrite El in Hl. cbn [app map rev] in Hl.
-      destruct (Hone _ Hl) as [G [A [N [Ht [Hx L]]]]]. auto 8.
+    - destruct (lower_args t mask fuel args s) as [[[[c la] ds] sa]| | |] eqn:El; try discriminate.
+      inversion Hl; subst c1 s1. clear Hl.
+      destruct (args_static avail auto_casts rty lty t mask no_sigil_intrinsics fuel args s c la ds sa El) as [Hat [_ [L [G [A N]]]]].
+      destruct (frees_shape (rev ds) (g s) (g sa) t mask) as [Hf1 Hf2].
+      split; [exact G|]. split; [exact A|].
+      split; [intros m Hm; apply (N [LInstr t mask (ICall opc la)]); [intros; reflexivity | exact Hm]|].
+      split; [apply Forall_app; split; [exact Hat|]; constructor; [split; reflexivity | exact Hf1]|].
+      split; [intros _; apply touches_app_r; reflexivity|].
+      apply labels_in_app; [exact L|]. constructor; [exact I | exact Hf2].
     - unfold ret in Hl. inversion Hl; subst. split; [lia|]. split; [apply te_agree_refl_|]. split; [intros; reflexivity|].
       split; [repeat constructor|]. split; [discriminate | repeat constructor].
     - destruct e; try discriminate. unfold need, instr, ret in Hl. destruct (avail KInterrupt); [|discriminate].
